@@ -110,8 +110,9 @@ Inductive op :=
 (* pipeline side *)
 | PNew (name : option string)                                      (* PipelineBuilder(name) *)
 | PBNode (i : nat) (name : string) (n : nspec)                     (* create_input / literal / add_component / replace_component: (re)bind a node *)
-| PBWire (i : nat) (name : string) (f : dict string -> dict string) (* connect: edit the component's wiring in place (created empty if absent) *)
-| PBClear (i : nat) (name : string)                                (* clear_inputs: a new empty dictionary *)
+| PBWire (i : nat) (name : string) (f : dict string -> dict string) (* connect: edit the component's wiring in place (created empty if absent);
+                                                                      the component is named by its node name, a node object (= its name) or an ALIAS *)
+| PBClear (i : nat) (name : string)                                (* clear_inputs: a new empty dictionary, stored under clear_key *)
 | PBAlias (i : nat) (f : dict string -> dict string)               (* alias / remove_alias *)
 | PBDefault (i : nat) (d : option string)                          (* default_component *)
 | PBuild (i : nat)                                                 (* builder.build() *)
@@ -127,6 +128,15 @@ Inductive op :=
 | DBRels (i : nat) (f : dict string -> dict string)                (* any in-place edit under schema.relationships *)
 | DBTables (i : nat) (f : dict string -> dict string)              (* tables are replaced, never edited *)
 | DBuild (i : nat).                                                (* builder.build() *)
+
+(* PipelineBuilder.node(name): the alias table is consulted first, then the node table; an alias stands for the
+   node it was given to.  connect() resolves the component it is handed this way and edits the wiring dictionary
+   stored under the RESOLVED node's name; whether clear_inputs() does so as well comes from the source
+   (Gen/C14_alias.v: clear_inputs_resolves_alias). *)
+Definition resolve (b : pobj) (name : string) : string :=
+  match dget name (p_aliases b) with Some t => t | None => name end.
+Definition clear_key (b : pobj) (name : string) : string :=
+  if clear_inputs_resolves_alias then resolve b name else name.
 
 Definition is_comp (n : pnode) : bool := match n with PInst _ _ | PCtor _ => true | _ => false end.
 
@@ -191,6 +201,7 @@ Definition step (s : state) (o : op) : state :=
       match nth_error (st_pblds s) i with
       | None => s
       | Some b =>
+          let name := resolve b name in
           match dget name (p_edges b) with
           | Some r => with_heap s (hedit (st_heap s) r f)
           | None => let (h, r) := alloc (st_heap s) (f []) in
@@ -200,7 +211,8 @@ Definition step (s : state) (o : op) : state :=
   | PBClear i name =>
       match nth_error (st_pblds s) i with
       | None => s
-      | Some b => let (h, r) := alloc (st_heap s) [] in
+      | Some b => let name := clear_key b name in
+                  let (h, r) := alloc (st_heap s) [] in
                   with_heap (with_pblds s (lset (st_pblds s) i (set_edges b (dset name r (p_edges b))))) h
       end
   | PBAlias i f =>
